@@ -6,7 +6,10 @@
   and the empty list is "[]".  Pairs are written key:value.
 
   Stateful ops (one FileConfig + one file + an environment):
-    N                         new FileConfig state (empty map, nothing loaded), file absent, env kept
+    N                         new FileConfig state (empty map, nothing loaded), file absent, env kept,
+                              observer registry emptied
+    O <name> <id>             observer.Add(name, target <id>) on the registry handed to WithConfigObserver
+    OC                        → <id>:<calls>,… for every target ever registered (or "[]")
     V <key> <val>             the process environment has key=val
     E <mtimeNs> <text>        the file now holds <text>, modification time <mtimeNs>
     D                         the file is removed
@@ -32,6 +35,7 @@
 import Golib.Conf.Getters
 import Golib.Conf.Reload
 import Golib.Conf.FS
+import Golib.Conf.Observers
 import Driver.Common
 
 open Conf Drv
@@ -73,6 +77,7 @@ structure DrvSt where
   cfg : Cfg := Cfg.init
   file : Option FileSt := none
   env : KV := []
+  obs : Obs := Obs.empty
 
 def showRes (c : Cfg) : ReloadRes → String
   | .nofile => s!"nofile {c.notified}"
@@ -115,7 +120,12 @@ def getter (st : DrvSt) (args : List String) : String :=
 
 def answer (st : DrvSt) (line : String) : DrvSt × String :=
   match line.splitOn " " with
-  | ["N"] => ({ st with cfg := Cfg.init, file := none }, "ok")
+  | ["N"] => ({ st with cfg := Cfg.init, file := none, obs := Obs.empty }, "ok")
+  | ["O", name, id] => match decStr name, parseNat id with
+    | some name, some id => ({ st with obs := st.obs.add name id }, "ok")
+    | _, _ => (st, "bad-op")
+  | ["OC"] =>
+    (st, if st.obs.counts.isEmpty then "[]" else ",".intercalate (st.obs.counts.map (fun p => s!"{p.1}:{p.2}")))
   | ["V", k, v] => match decStr k, decStr v with
     | some k, some v => ({ st with env := put st.env k v }, "ok")
     | _, _ => (st, "bad-op")
@@ -125,10 +135,10 @@ def answer (st : DrvSt) (line : String) : DrvSt × String :=
   | ["D"] => ({ st with file := none }, "ok")
   | ["R"] =>
     let (c, r) := reload verFull st.cfg st.file
-    ({ st with cfg := c }, showRes c r)
+    ({ st with cfg := c, obs := if r == .loaded then st.obs.run else st.obs }, showRes c r)
   | ["RS"] =>
     let (c, r) := reload verSec st.cfg st.file
-    ({ st with cfg := c }, showRes c r)
+    ({ st with cfg := c, obs := if r == .loaded then st.obs.run else st.obs }, showRes c r)
   | "G" :: args => (st, getter st args)
   | ["K"] => (st, encList (st.cfg.m.map (·.1)))
   | ["P", text] => match decStr text with
